@@ -893,6 +893,21 @@ func (st *solveState) solve(at *ssa.BasicBlock, depth int) bool {
 				vars[v] = true
 			}
 		}
+		// ... and so is a bound on a single DEFINED value (n == 0 with n := len(t)/size gives n <= 0 and n >= 0):
+		// quotients, remainders and shifts only - their definition is what relates them to anything else
+		for _, q := range st.fs.ineqs {
+			if len(q.L.T) != 1 {
+				continue
+			}
+			for v := range q.L.T {
+				if b, ok := e.keys[v].root.(*ssa.BinOp); ok && e.keys[v].path == "" {
+					switch b.Op {
+					case token.QUO, token.REM, token.SHR, token.SHL, token.AND:
+						vars[v] = true
+					}
+				}
+			}
+		}
 		// transitive cone through current facts
 		for changed := true; changed; {
 			changed = false
